@@ -295,7 +295,7 @@ func propC03(c *Ctx) {
 
 	c.Rule("R3.8", "the hash recorded with a position is the hash of the block whose rows were written at that position (it is what the next step's parent comparison runs against)", 2)
 	if upds, inss := m.calls(m.update), m.calls(m.insert); len(upds) == 1 && len(inss) == 1 {
-		checkPositionFromLastInserted(c, "R3.8", upds[0], inss[0].Call.Args[3])
+		checkPositionFromLastInserted(c, "R3.8", upds[0], m.reg.Resolve(inss[0].Call.Args[3]))
 	} else {
 		c.Violation("R3.8", "Converge/insert+update", conv.Pos(), fmt.Sprintf("expected exactly one insert and one update call in Converge, found %d/%d", len(inss), len(upds)))
 	}
